@@ -2,6 +2,7 @@ import Genq.Props.C17
 open Genq.Files
 open Genq
 open Genq.Lines
+open Genq
 #print axioms C17_collect_perm
 #print axioms C17_split_graphql
 #print axioms C17_literal_equals_file
@@ -12,3 +13,4 @@ open Genq.Lines
 #print axioms C17_line_ending_convention_irrelevant
 #print axioms C17_old_split_cr_witness
 #print axioms C17_parsePrecedingComment_tie
+#print axioms C17_parse_tie
